@@ -264,7 +264,7 @@ def replay_case(arg):
         neg = False
         for o in range(nout):
             pr = probes.probe_output(o, times[o], th_n[:nmech])
-            if np.min(pr) < 0:
+            if len(pr) and np.min(pr) < 0:
                 neg = True
                 if kinds[o] == 'C':
                     th_n[slices[o][1]] = float(np.floor(500.0 * th_n[slices[o][0]] / -np.min(pr)) / 1000.0)  # sigma_tot >= sigma_base / 2
@@ -384,3 +384,46 @@ def _sort_within_ties(v, rec):
             out[off + s:off + e] = np.sort(out[off + s:off + e])
         off += len(g)
     return out
+
+
+def long_series_checks(seed):
+    """The sum over MANY measurements (beyond the bound of the enumeration): 400 observations per output, error scales large
+    and small -- the total is the sum of the per-measurement log-densities (no intermediate product of the scales), and the
+    pointwise values add up to it."""
+    fails = []
+    n = 0
+    rng = np.random.default_rng([seed, 4001])
+    t = np.sort(np.round(rng.uniform(0.1, 5.0, size=400), 2))           # (ties among them)
+    for kind in ('G', 'M', 'C', 'L'):
+        for scale in (1.0, 20.0, 1e-3):
+            mech = probes.ProbeMech(2, 1, tag='long%s%g' % (kind, scale))
+            psi = np.array([1.3, 0.8])
+            pred = probes.probe_output(0, t, psi)
+            npar = 2 if kind == 'C' else 1
+            err = np.array([0.4, 0.3][:npar]) * scale
+            obs = np.round(pred * (1.0 + 0.1 * rng.uniform(-1, 1, size=len(t))), 4)
+            theta = np.concatenate([psi, err])
+
+            def ref(th):
+                pr = probes.probe_output(0, t, th[:2])
+                return sum(interp.ERR[kind](obs[j], pr[j], th[2:]) for j in range(len(t)))
+            try:
+                with warnings.catch_warnings():
+                    warnings.simplefilter('ignore')
+                    ll = chi.LogLikelihood(mech, probes.error_model(kind), obs.copy(), t.copy())
+                    v = float(ll(theta.copy()))
+                    s1 = float(ll.evaluateS1(theta.copy())[0])
+                    pw = np.asarray(ll.compute_pointwise_ll(theta.copy()), dtype=float)
+                n += 3
+                ev = interp.value(ref, theta)
+                case = dict(config=dict(long_series=kind, scale=scale))
+                if not (np.isfinite(ev) and interp.close(v, ev) and interp.close(s1, ev)):
+                    fails.append(dict(case=case, clause='BagIsDecl', manifestation='value_of_a_long_series',
+                                      detail=dict(got=[v, s1], expected=ev, n=len(t)), features=['long_series', 'kind_' + kind]))
+                elif pw.shape != (len(t),) or not interp.close(float(np.sum(pw)), ev):
+                    fails.append(dict(case=case, clause='PointwiseSum', manifestation='sum_of_a_long_series',
+                                      detail=dict(got=float(np.sum(pw)), expected=ev), features=['long_series', 'kind_' + kind]))
+            except Exception as e:
+                fails.append(dict(case=dict(config=dict(long_series=kind, scale=scale)), clause='Evaluable',
+                                  manifestation=type(e).__name__, detail=repr(e), features=['long_series']))
+    return fails, {'long_series_evaluations': n}
